@@ -76,9 +76,10 @@ fragments (`exprFrags`) with the layout engine from *any* state — any line len
 the text so far is read as the tokens `TS` whatever follows (`K`; e.g. the empty text).  Then the resulting text is read by the
 scanner as `TS` followed by exactly the tokens `toks e` — the tokens `C07_parse_print` parses back to `e`.  Wherever `wrap`
 breaks the line or drops blanks, no two tokens are glued together and none is split.
-Excluded: REAL literals (a real token is compared by value: `C07_real_keeps_point` and the numeric grid of the check), simple
-string literals (`breakLongStr` may split them into `'a' + 'b'`: `C07_breakLongStr_exact`), an integer literal as operand of
-`.` (`3.x` would be read as the real `3.`; the resolver rejects such a schema, PE008). -/
+REAL literals are covered in the spelling exppp prints (`real2exp g = g`, digits `.` digits, optional exponent: `LitLex`); for
+any other spelling of the value see `C07_lex_layout_respelled_partial`.
+Excluded: simple string literals (`breakLongStr` may split them into `'a' + 'b'`: `C07_breakLongStr_exact`), an integer literal
+as operand of `.` (`3.x` would be read as the real `3.`; the resolver rejects such a schema, PE008). -/
 theorem C07_lex_layout_partial (e : Expr) (hw : lexWF e) (p : Bool) (q : Option BinOp) (st : PState) (TS : List Tok)
     (hK : K st TS none) :
     Lexes (run st (exprFrags Shared.clean e p q)).text (TS ++ toks Shared.clean e p q) := by
@@ -104,6 +105,35 @@ theorem C07_char_roundtrip_partial (e : Expr) (hw : wfE e) (hl : lexWF e) (st : 
     (lex (run st (exprFrags Shared.clean e false none)).text).bind parse = some (norm e) := by
   rw [C07_lex_layout_exec_partial e hl false none st h0 hs]
   exact C07_parse_print e hw
+
+/-- a real literal whose `%#.15g` text has the shape digits `.` digits [exponent] (`RealSp`: what printf's `#` flag guarantees for
+a finite non-negative value) is, once `real2exp` has removed its trailing zeros, a spelling the scanner model reads as one REAL
+token, and `real2exp` leaves that spelling alone -/
+theorem C07_real_respelled_lexes (g : List Char) (h : RealSp g) : LitLex (respellLit (.real g)) :=
+  ⟨real2exp_shape g h, real2exp_idem g h⟩
+
+/-- the printer sees a real literal only through `real2exp`: respelling every real literal of `e` as exppp prints it does not
+change a single fragment -/
+theorem C07_print_respells (e : Expr) (h : lexWF (respell e)) (p : Bool) (q : Option BinOp) :
+    exprFrags Shared.clean (respell e) p q = exprFrags Shared.clean e p q :=
+  (frags_respell e).1 p q h
+
+/-- `C07_lex_layout_partial` for expressions with real literals in any spelling of the shape of `C07_real_respelled_lexes`:
+the scanner reads the laid-out text of `e` as the tokens of `respell e` — `e` with every real literal in the spelling exppp
+prints (the value is the same; `strtod` is not modelled) -/
+theorem C07_lex_layout_respelled_partial (e : Expr) (hw : lexWF (respell e)) (p : Bool) (q : Option BinOp) (st : PState)
+    (TS : List Tok) (hK : K st TS none) :
+    Lexes (run st (exprFrags Shared.clean e p q)).text (TS ++ toks Shared.clean (respell e) p q) := by
+  rw [← C07_print_respells e hw p q]
+  exact C07_lex_layout_partial (respell e) hw p q st TS hK
+
+/-- print → layout at any line length → scan → parse gives `e` back with its real literals respelled and associative chains
+regrouped -/
+theorem C07_char_roundtrip_respelled_partial (e : Expr) (hw : wfE (respell e)) (hl : lexWF (respell e)) (st : PState)
+    (h0 : st.pieces = []) (hs : st.spaceLast = false) :
+    (lex (run st (exprFrags Shared.clean e false none)).text).bind parse = some (norm (respell e)) := by
+  rw [← C07_print_respells e hl false none]
+  exact C07_char_roundtrip_partial (respell e) hw hl st h0 hs
 
 /-- grammar token of a punctuation/operator token of the model -/
 def symTokName : Tok → Option String
